@@ -60,13 +60,14 @@ Qed.
 
 (* ------------------------------------------------------------------ the invariant *)
 Definition caller_ok (pending : option (Z * Z)) (x : caller) : Prop :=
-  c_op x <> 0 /\
+  0 < c_op x /\
   match c_phase x with
   | WaitSem => True
   | WaitResp => pending = Some (c_id x, c_op x)
   | Done r => r = c_op x
   | Failed => False
   | Cancelled => True
+  | LostFail => True
   end.
 
 Definition pipeline_ok (s : hstate) : Prop :=
@@ -98,14 +99,15 @@ Proof. unfold step. intros ->. reflexivity. Qed.
 Lemma step_some s l s' o : step_opt s l = Some (s', o) -> step s l = s'.
 Proof. unfold step. intros ->. reflexivity. Qed.
 
-Lemma step_inv s l : Inv s -> label_ok l = true -> cancel_ok s l = true -> Inv (step s l).
+Lemma step_inv s l : Inv s -> h_lost s = false -> l <> Lose ->
+  label_ok l = true -> cancel_ok s l = true -> Inv (step s l).
 Proof.
-  intros I Hl Hcan. destruct (step_opt s l) as [[s' o]|] eqn:E; [|rewrite (step_none _ _ E); exact I].
+  intros I Hlost Hnl Hl Hcan. destruct (step_opt s l) as [[s' o]|] eqn:E; [|rewrite (step_none _ _ E); exact I].
   rewrite (step_some _ _ _ _ E). destruct I as [Ierr Ind Icall Ipipe].
-  destruct l as [c op|c|cc n| |cc op n| |c|c]; cbn [label_ok] in Hl; try discriminate.
+  destruct l as [c op|c|cc n| |cc op n| |c|c|]; cbn [label_ok] in Hl; try discriminate; [| | | | | |congruence].
   - (* Call *)
     cbn [step_opt] in E. destruct (known c (h_callers s)) eqn:K; [discriminate|].
-    inversion E; subst s' o; clear E. apply negb_true_iff, Z.eqb_neq in Hl.
+    inversion E; subst s' o; clear E. apply Z.ltb_lt in Hl.
     constructor; cbn.
     + exact Ierr.
     + rewrite map_app. cbn. apply NoDup_app_one_Z; [exact Ind | apply known_false; exact K].
@@ -117,7 +119,7 @@ Proof.
   - (* Acquire *)
     cbn [step_opt] in E. destruct (Z.leb (h_sem s) 0) eqn:Sem; [discriminate|].
     destruct (find_waiting c (h_callers s)) as [x|] eqn:F; [|discriminate].
-    destruct (find_waiting_spec _ _ _ F) as [Hx [Hid Hph]].
+    destruct (find_waiting_spec _ _ _ F) as [Hx [Hid Hph]]. rewrite Hlost in E.
     unfold pipeline_ok in Ipipe. destruct (h_pending s) as [[c' op']|] eqn:P.
     { destruct Ipipe as [Hs _]. rewrite Hs in Sem. discriminate. }
     destruct Ipipe as [Hsem [Hr [Ht Hf]]]. rewrite Hr in E. inversion E; subst s' o; clear E.
@@ -154,7 +156,7 @@ Proof.
     pose proof (Icall x Hx) as [Hop _]. rewrite Hxo in Hop.
     rewrite Fr in Hf. injection Hf as <- <- <- ->.
     assert (cc && Z.eqb op 0 = false) as Z0.
-    { apply andb_false_iff. right. now apply Z.eqb_neq. }
+    { apply andb_false_iff. right. apply Z.eqb_neq. lia. }
     rewrite Z0 in E. cbn [h_pending h_resp] in E. try rewrite P in E. rewrite Hr in E.
     inversion E; subst s' o; clear E.
     constructor; cbn; auto.
@@ -167,9 +169,12 @@ Proof.
     destruct (Z.eqb c' c) eqn:Ec; [|discriminate]. apply Z.eqb_eq in Ec. subst c'.
     destruct Ipipe as [Hs [[x [Hx [Hxi [Hxo Hxp]]]] Hc]].
     destruct Hc as [[Hr _]|[[Hr _]|[n' [Hr [Hn [Ht Hf]]]]]]; try congruence.
+    pose proof (Icall x Hx) as [Hpos _]. rewrite Hxo in Hpos.
     inversion Hr; subst op' n'. clear Hr.
-    assert (release_if (mkH (set_phase c (Done op) (h_callers s)) (h_sem s) None None (h_to s) (h_from s) (h_err s)) n
-            = mkH (set_phase c (Done op) (h_callers s)) 1 None None (h_to s) (h_from s) (h_err s)) as Rel.
+    assert (Z.eqb op exc_code = false) as Hne by (apply Z.eqb_neq; unfold exc_code; lia).
+    rewrite Hne in E.
+    assert (release_if (mkH (set_phase c (Done op) (h_callers s)) (h_sem s) None None (h_to s) (h_from s) (h_err s) (h_lost s)) n
+            = mkH (set_phase c (Done op) (h_callers s)) 1 None None (h_to s) (h_from s) (h_err s) (h_lost s)) as Rel.
     { unfold release_if, locked. cbn [h_sem h_callers]. rewrite Hs.
       destruct (Z.eqb n 0) eqn:Zn; [apply Z.eqb_eq in Zn; lia|]. reflexivity. }
     rewrite Rel in E. inversion E; subst s' o; clear E.
@@ -232,13 +237,205 @@ Proof.
         exact Ipipe.
 Qed.
 
-Lemma run_inv ls : forall s, wf_run s ls = true -> Inv s -> Inv (run s ls).
+(* ------------------------------------------------------------------ after the transport is lost *)
+Lemma step_lost s l : l <> Lose -> h_lost (step s l) = h_lost s.
+Proof.
+  intros N. unfold step. destruct (step_opt s l) as [[s' o]|] eqn:E; [|reflexivity].
+  destruct l as [c op|c|cc n| |cc op n| |c|c|]; cbn [step_opt] in E; try congruence.
+  - destruct (known c (h_callers s)); inversion E; reflexivity.
+  - destruct (Z.leb (h_sem s) 0); [discriminate|]. destruct (find_waiting c (h_callers s)); [|discriminate].
+    destruct (h_lost s) eqn:L; [inversion E; subst; cbn; congruence|].
+    destruct (h_pending s), (h_resp s); inversion E; subst; cbn; congruence.
+  - destruct (h_to s); inversion E; reflexivity.
+  - destruct (h_to s); inversion E; reflexivity.
+  - inversion E; reflexivity.
+  - destruct (h_from s) as [|[[cc op] n] rest]; [discriminate|].
+    destruct (cc && (op =? 0)); [inversion E; unfold release_if; cbn; destruct (_ && _); reflexivity|].
+    cbn in E. destruct (h_pending s).
+    + destruct (h_resp s); inversion E; reflexivity.
+    + inversion E. unfold release_if; cbn; destruct (_ && _); reflexivity.
+  - destruct (h_pending s) as [[c' op']|]; [|discriminate]. destruct (h_resp s) as [[op n]|]; [|discriminate].
+    destruct (c' =? c); [|discriminate]. destruct (op =? exc_code); inversion E; [reflexivity|].
+    unfold release_if; cbn; destruct (_ && _); reflexivity.
+  - destruct (h_pending s) as [[c' op']|].
+    + destruct (c' =? c); [inversion E; reflexivity|].
+      destruct (find_waiting c (h_callers s)); inversion E; reflexivity.
+    + destruct (find_waiting c (h_callers s)); inversion E; reflexivity.
+Qed.
+
+(* the invariant of the states after a loss: nothing is sent any more; whoever holds the
+   semaphore has its outcome (a response that arrived before the loss, or the exception) *)
+Definition lost_pending_ok (s : hstate) : Prop :=
+  match h_pending s with
+  | None => h_sem s = 1 /\ h_resp s = None
+  | Some (c, op) =>
+      h_sem s = 0 /\
+      (exists x, In x (h_callers s) /\ c_id x = c /\ c_op x = op /\ c_phase x = WaitResp) /\
+      exists o n, h_resp s = Some (o, n) /\ (o = exc_code \/ (o = op /\ 1 <= n))
+  end.
+
+Record LInv (s : hstate) : Prop := mkLInv {
+  l_lost : h_lost s = true;
+  l_err : h_err s = false;
+  l_nodup : NoDup (map c_id (h_callers s));
+  l_callers : forall x, In x (h_callers s) -> caller_ok (h_pending s) x;
+  l_pend : lost_pending_ok s;
+  l_out : outstanding s <= 1
+}.
+
+Lemma inv_outstanding0 s : Inv s -> outstanding s <= 1.
+Proof.
+  intros [_ _ _ P]. unfold pipeline_ok in P. unfold outstanding.
+  destruct (h_pending s) as [[c op]|].
+  - destruct P as [_ [_ [[_ [-> ->]]|[[_ [-> [cc [n [-> _]]]]]|[n [_ [_ [-> ->]]]]]]]]; cbn; lia.
+  - destruct P as [_ [_ [-> ->]]]. cbn. lia.
+Qed.
+
+Lemma lose_linv s : Inv s -> LInv (step s Lose).
+Proof.
+  intros I. pose proof (inv_outstanding0 s I) as O. destruct I as [Ierr Ind Icall Ipipe].
+  unfold step. cbn [step_opt]. constructor; cbn [h_lost h_err h_callers h_pending h_sem h_resp h_to h_from]; auto.
+  unfold pipeline_ok in Ipipe. unfold lost_pending_ok. cbn [h_pending h_sem h_resp h_callers].
+  destruct (h_pending s) as [[c op]|].
+  - destruct Ipipe as [Hs [Hex Hc]]. split; [exact Hs|]. split; [exact Hex|].
+    destruct Hc as [[Hr _]|[[Hr _]|[n [Hr [Hn _]]]]]; rewrite Hr.
+    + exists exc_code, 0. auto.
+    + exists exc_code, 0. auto.
+    + exists op, n. auto.
+  - destruct Ipipe as [Hs [Hr _]]. rewrite Hr. auto.
+Qed.
+
+Lemma step_linv s l : LInv s -> label_ok l = true -> cancel_ok s l = true -> lost_ok s l = true -> LInv (step s l).
+Proof.
+  intros I Hl Hcan Hlo. destruct (step_opt s l) as [[s' o]|] eqn:E; [|rewrite (step_none _ _ E); exact I].
+  rewrite (step_some _ _ _ _ E). destruct I as [Ilost Ierr Ind Icall Ipend Iout].
+  unfold lost_ok in Hlo. rewrite Ilost in Hlo.
+  destruct l as [c op|c|cc n| |cc op n| |c|c|]; cbn [label_ok] in Hl; try discriminate; cbn [step_opt] in E.
+  - (* Call *)
+    destruct (known c (h_callers s)) eqn:K; [discriminate|]. inversion E; subst s' o; clear E.
+    apply Z.ltb_lt in Hl. constructor; cbn; auto.
+    + rewrite map_app. cbn. apply NoDup_app_one_Z; [exact Ind | apply known_false; exact K].
+    + intros x Hx. apply in_app_or in Hx. destruct Hx as [Hx|[<-|[]]]; [apply Icall; exact Hx|]. split; cbn; auto.
+    + unfold lost_pending_ok in *. cbn. destruct (h_pending s) as [[c' op']|]; [|exact Ipend].
+      destruct Ipend as [Hs [[x [Hx Hx']] Hc]]. split; [exact Hs|]. split; [|exact Hc].
+      exists x. split; [apply in_or_app; auto | exact Hx'].
+  - (* Acquire: fails at once *)
+    destruct (Z.leb (h_sem s) 0) eqn:Sem; [discriminate|].
+    destruct (find_waiting c (h_callers s)) as [x|] eqn:F; [|discriminate].
+    rewrite Ilost in E. inversion E; subst s' o; clear E.
+    destruct (find_waiting_spec _ _ _ F) as [Hx [Hid Hph]].
+    unfold lost_pending_ok in Ipend. destruct (h_pending s) as [[c' op']|] eqn:P.
+    { destruct Ipend as [Hs _]. rewrite Hs in Sem. discriminate. }
+    constructor; cbn [h_lost h_err h_callers h_pending h_sem h_resp h_to h_from with_callers]; auto.
+    + rewrite map_id_set_phase. exact Ind.
+    + intros y' Hy'. apply in_set_phase in Hy'. destruct Hy' as [y [Hy ->]]. rewrite P.
+      destruct (has_id c y) eqn:Hc.
+      * pose proof (Icall y Hy) as [Hop _]. split; cbn; auto.
+      * exact (Icall y Hy).
+    + unfold lost_pending_ok. cbn [h_pending h_sem h_resp with_callers]. rewrite P. exact Ipend.
+  - (* Resume *)
+    unfold lost_pending_ok in Ipend.
+    destruct (h_pending s) as [[c' op']|] eqn:P; [|discriminate].
+    destruct (h_resp s) as [[op n]|] eqn:R; [|discriminate].
+    destruct (Z.eqb c' c) eqn:Ec; [|discriminate]. apply Z.eqb_eq in Ec. subst c'.
+    destruct Ipend as [Hs [[x [Hx [Hxi [Hxo Hxp]]]] [o' [n' [Hr Hcase]]]]]. inversion Hr; subst o' n'. clear Hr.
+    pose proof (Icall x Hx) as [Hpos _]. rewrite Hxo in Hpos.
+    assert (forall ph, (match ph with Done r => r = op' | LostFail => True | _ => False end) ->
+              forall y', In y' (set_phase c ph (h_callers s)) -> caller_ok None y') as Hcallers.
+    { intros ph Hph y' Hy'. apply in_set_phase in Hy'. destruct Hy' as [y [Hy ->]].
+      destruct (has_id c y) eqn:Hc.
+      - unfold has_id in Hc. apply Z.eqb_eq in Hc.
+        assert (y = x) as -> by (apply (unique_id _ Ind); auto; congruence).
+        split; cbn; [lia|]. destruct ph; try contradiction; [congruence | exact I].
+      - pose proof (Icall y Hy) as [Hop' Hph']. split; [exact Hop'|].
+        destruct (c_phase y) eqn:Py; auto.
+        inversion Hph'. unfold has_id in Hc. apply Z.eqb_neq in Hc. congruence. }
+    destruct (Z.eqb op exc_code) eqn:Ex.
+    + inversion E; subst s' o; clear E.
+      constructor; cbn [h_lost h_err h_callers h_pending h_sem h_resp h_to h_from]; auto.
+      * rewrite map_id_set_phase. exact Ind.
+      * apply Hcallers. exact I.
+      * unfold lost_pending_ok. cbn. rewrite Hs. auto.
+    + destruct Hcase as [Hex|[Hop Hn]]; [apply Z.eqb_neq in Ex; contradiction|]. subst op.
+      assert (release_if (mkH (set_phase c (Done op') (h_callers s)) (h_sem s) None None (h_to s) (h_from s) (h_err s) (h_lost s)) n
+              = mkH (set_phase c (Done op') (h_callers s)) 1 None None (h_to s) (h_from s) (h_err s) (h_lost s)) as Rel.
+      { unfold release_if, locked. cbn [h_sem h_callers]. rewrite Hs.
+        destruct (Z.eqb n 0) eqn:Zn; [apply Z.eqb_eq in Zn; lia|]. reflexivity. }
+      rewrite Rel in E. inversion E; subst s' o; clear E.
+      constructor; cbn [h_lost h_err h_callers h_pending h_sem h_resp h_to h_from]; auto.
+      * rewrite map_id_set_phase. exact Ind.
+      * apply Hcallers. reflexivity.
+      * unfold lost_pending_ok. cbn. auto.
+  - (* Cancel *)
+    cbn [cancel_ok] in Hcan. unfold lost_pending_ok in Ipend.
+    destruct (h_pending s) as [[c' op']|] eqn:P.
+    + destruct (Z.eqb c' c) eqn:Ec.
+      * apply Z.eqb_eq in Ec. subst c'. inversion E; subst s' o; clear E.
+        destruct Ipend as [Hs [[x [Hx [Hxi [Hxo Hxp]]]] _]].
+        constructor; cbn [h_lost h_err h_callers h_pending h_sem h_resp h_to h_from]; auto.
+        -- rewrite map_id_set_phase. exact Ind.
+        -- intros y' Hy'. apply in_set_phase in Hy'. destruct Hy' as [y [Hy ->]].
+           destruct (has_id c y) eqn:Hid.
+           ++ pose proof (Icall y Hy) as [Hop _]. split; cbn; auto.
+           ++ pose proof (Icall y Hy) as [Hop' Hph']. split; [exact Hop'|].
+              destruct (c_phase y) eqn:Py; auto.
+              inversion Hph'. unfold has_id in Hid. apply Z.eqb_neq in Hid. congruence.
+        -- unfold lost_pending_ok. cbn. rewrite Hs. auto.
+      * destruct (find_waiting c (h_callers s)) as [x|] eqn:F; [|discriminate].
+        inversion E; subst s' o; clear E. apply Z.eqb_neq in Ec.
+        constructor; cbn [h_lost h_err h_callers h_pending h_sem h_resp h_to h_from with_callers]; auto.
+        -- rewrite map_id_set_phase. exact Ind.
+        -- intros y' Hy'. apply in_set_phase in Hy'. destruct Hy' as [y [Hy ->]]. rewrite P.
+           destruct (has_id c y) eqn:Hid'.
+           ++ pose proof (Icall y Hy) as [Hop _]. split; cbn; auto.
+           ++ exact (Icall y Hy).
+        -- unfold lost_pending_ok. cbn [h_pending h_sem h_resp h_callers with_callers]. rewrite P.
+           destruct Ipend as [Hs [[y [Hy [Hyi [Hyo Hyp]]]] Hcase]]. split; [exact Hs|]. split; [|exact Hcase].
+           exists y. split; [|auto]. unfold set_phase. apply in_map_iff. exists y.
+           assert (has_id c y = false) as ->; [|auto]. unfold has_id. apply Z.eqb_neq. congruence.
+    + destruct (find_waiting c (h_callers s)) as [x|] eqn:F; [|discriminate].
+      inversion E; subst s' o; clear E.
+      constructor; cbn [h_lost h_err h_callers h_pending h_sem h_resp h_to h_from with_callers]; auto.
+      * rewrite map_id_set_phase. exact Ind.
+      * intros y' Hy'. apply in_set_phase in Hy'. destruct Hy' as [y [Hy ->]]. rewrite P.
+        destruct (has_id c y) eqn:Hid'.
+        -- pose proof (Icall y Hy) as [Hop _]. split; cbn; auto.
+        -- exact (Icall y Hy).
+      * unfold lost_pending_ok. cbn [h_pending h_sem h_resp with_callers]. rewrite P. exact Ipend.
+  - (* Lose again *)
+    inversion E; subst s' o; clear E.
+    constructor; cbn [h_lost h_err h_callers h_pending h_sem h_resp h_to h_from]; auto.
+    unfold lost_pending_ok in *. cbn [h_pending h_sem h_resp h_callers].
+    destruct (h_pending s) as [[c op]|]; [|destruct Ipend as [Hs Hr]; rewrite Hr; auto].
+    destruct Ipend as [Hs [Hex [o' [n' [Hr Hc]]]]]. rewrite Hr. split; [exact Hs|]. split; [exact Hex|]. eauto.
+Qed.
+
+(* before or after a loss *)
+Definition Inv2 (s : hstate) : Prop := (h_lost s = false /\ Inv s) \/ LInv s.
+
+Lemma label_eq_lose_dec (l : label) : {l = Lose} + {l <> Lose}.
+Proof. destruct l; (left; reflexivity) || (right; discriminate). Qed.
+
+Lemma step_inv2 s l : Inv2 s -> label_ok l = true -> cancel_ok s l = true -> lost_ok s l = true -> Inv2 (step s l).
+Proof.
+  intros [[L I]|I] Hl Hc Hlo.
+  - destruct (label_eq_lose_dec l) as [->|N].
+    + right. apply lose_linv. exact I.
+    + left. split; [rewrite (step_lost s l N); exact L | apply step_inv; assumption].
+  - right. apply step_linv; assumption.
+Qed.
+
+Lemma run_inv ls : forall s, wf_run s ls = true -> Inv2 s -> Inv2 (run s ls).
 Proof.
   induction ls as [|l ls IH]; intros s C I; cbn [run]; [exact I|].
-  cbn [wf_run] in C. apply andb_true_iff in C. destruct C as [C12 C3].
+  cbn [wf_run] in C. apply andb_true_iff in C. destruct C as [C123 C4].
+  apply andb_true_iff in C123. destruct C123 as [C12 C3].
   apply andb_true_iff in C12. destruct C12 as [C1 C2].
-  apply IH; [exact C3 | apply step_inv; assumption].
+  apply IH; [exact C4 | apply step_inv2; assumption].
 Qed.
+
+Lemma inv2_init : Inv2 h_init.
+Proof. left. split; [reflexivity | exact inv_init]. Qed.
 
 (* ------------------------------------------------------------------ consequences of the invariant *)
 Lemma inv_outstanding s : Inv s -> outstanding s <= 1.
@@ -286,6 +483,7 @@ Proof.
     + subst. apply Z.eqb_refl.
     + contradiction.
     + reflexivity.
+    + reflexivity.
 Qed.
 
 (* ------------------------------------------------------------------ progress and termination *)
@@ -310,10 +508,11 @@ Proof.
     + exists (CtrlReply true 1). cbn. rewrite Ht. repeat split; discriminate.
     + exists Deliver. cbn. rewrite Hf. repeat split.
       destruct (cc && (op =? 0)); [discriminate|]. rewrite Pe, Hr. discriminate.
-    + exists (Resume c). cbn. rewrite Pe, Hr, Z.eqb_refl. repeat split; discriminate.
+    + exists (Resume c). cbn. rewrite Pe, Hr, Z.eqb_refl. destruct (op =? exc_code); repeat split; discriminate.
   - destruct P as [Hs [Hr [Ht Hf]]]. rewrite Ht, Hf, Hs in Q. cbn in Q.
     apply negb_false_iff in Q. destruct (existsb_find_waiting _ Q) as [x Hx].
-    exists (Acquire (c_id x)). cbn. rewrite Hs, Hx, Pe, Hr. repeat split; discriminate.
+    exists (Acquire (c_id x)). cbn. rewrite Hs, Hx. cbn.
+    destruct (h_lost s); [repeat split; discriminate|]. rewrite Pe, Hr. repeat split; discriminate.
 Qed.
 
 Definition weight_sum (l : list caller) : nat := fold_right (fun x a => caller_weight x + a)%nat 0%nat l.
@@ -356,10 +555,14 @@ Lemma measure_decreases s l s' o :
   internal l = true -> step_opt s l = Some (s', o) -> (measure s' < measure s)%nat.
 Proof.
   intros Hi E. unfold measure.
-  destruct l as [c op|c|cc n| |cc op n| |c|c]; try discriminate; cbn [step_opt] in E.
+  destruct l as [c op|c|cc n| |cc op n| |c|c|]; try discriminate; cbn [step_opt] in E.
   - (* Acquire *)
     destruct (Z.leb (h_sem s) 0); [discriminate|].
     destruct (find_waiting c (h_callers s)) as [x|] eqn:F; [|discriminate].
+    destruct (h_lost s).
+    { inversion E; subst; clear E. cbn. fold (weight_sum (h_callers s)).
+      fold (weight_sum (set_phase c LostFail (h_callers s))).
+      pose proof (weight_set_phase_lt c LostFail _ x eq_refl F). lia. }
     destruct (h_pending s), (h_resp s); inversion E; subst; clear E; unfold measure; cbn;
       fold (weight_sum (h_callers s));
       match goal with |- context [set_phase c ?ph _] =>
@@ -381,7 +584,12 @@ Proof.
   - (* Resume *)
     destruct (h_pending s) as [[c' op']|]; [|discriminate].
     destruct (h_resp s) as [[op n]|]; [|discriminate].
-    destruct (c' =? c); [|discriminate]. inversion E; subst; clear E.
+    destruct (c' =? c); [|discriminate].
+    destruct (op =? exc_code).
+    { inversion E; subst; clear E. cbn. fold (weight_sum (h_callers s)).
+      fold (weight_sum (set_phase c LostFail (h_callers s))).
+      pose proof (weight_set_phase_le c LostFail (h_callers s) eq_refl). lia. }
+    inversion E; subst; clear E.
     unfold release_if; cbn.
     pose proof (weight_set_phase_le c (Done op) (h_callers s) eq_refl) as Hle.
     destruct (negb (n =? 0) && locked _); unfold measure; cbn;
@@ -391,24 +599,35 @@ Qed.
 Lemma internal_cancel_ok s l : internal l = true -> cancel_ok s l = true.
 Proof. destruct l; cbn; intros H; try reflexivity; discriminate. Qed.
 
-(* internal steps that satisfy the contract satisfy the run hypotheses *)
-Lemma wf_run_internal ls : forall s, forallb internal ls = true -> contract_ok ls = true -> wf_run s ls = true.
+Lemma internal_not_lose l : internal l = true -> l <> Lose.
+Proof. destruct l; cbn; intros H; discriminate. Qed.
+
+Lemma not_lost_ok s l : h_lost s = false -> lost_ok s l = true.
+Proof. intros H. unfold lost_ok. now rewrite H. Qed.
+
+(* internal steps that satisfy the contract satisfy the run hypotheses (transport not lost) *)
+Lemma wf_run_internal ls : forall s, h_lost s = false ->
+  forallb internal ls = true -> contract_ok ls = true -> wf_run s ls = true.
 Proof.
-  induction ls as [|l ls IH]; intros s Hi Hc; cbn [wf_run]; [reflexivity|].
+  induction ls as [|l ls IH]; intros s L Hi Hc; cbn [wf_run]; [reflexivity|].
   cbn in Hi, Hc. apply andb_true_iff in Hi. apply andb_true_iff in Hc.
   destruct Hi as [Hi1 Hi2], Hc as [Hc1 Hc2].
-  rewrite Hc1, (internal_cancel_ok s l Hi1), (IH _ Hi2 Hc2). reflexivity.
+  rewrite Hc1, (internal_cancel_ok s l Hi1), (not_lost_ok s l L). cbn.
+  apply IH; [rewrite (step_lost s l (internal_not_lose l Hi1)); exact L | exact Hi2 | exact Hc2].
 Qed.
 
-(* without cancellations the run hypotheses are just the contract *)
-Lemma wf_run_no_cancel ls : forall s,
-  forallb (fun l => match l with Cancel _ => false | _ => true end) ls = true ->
+(* without cancellations and without a loss the run hypotheses are just the contract *)
+Lemma wf_run_no_cancel ls : forall s, h_lost s = false ->
+  forallb (fun l => match l with Cancel _ | Lose => false | _ => true end) ls = true ->
   contract_ok ls = true -> wf_run s ls = true.
 Proof.
-  induction ls as [|l ls IH]; intros s Hn Hc; cbn [wf_run]; [reflexivity|].
+  induction ls as [|l ls IH]; intros s L Hn Hc; cbn [wf_run]; [reflexivity|].
   cbn in Hn, Hc. apply andb_true_iff in Hn. apply andb_true_iff in Hc.
   destruct Hn as [Hn1 Hn2], Hc as [Hc1 Hc2].
-  rewrite Hc1, (IH _ Hn2 Hc2). destruct l; try reflexivity. discriminate.
+  rewrite Hc1, (not_lost_ok s l L).
+  assert (l <> Lose) as NL by (destruct l; discriminate).
+  rewrite (IH (step s l)); [|rewrite (step_lost s l NL); exact L | exact Hn2 | exact Hc2].
+  destruct l; try reflexivity; discriminate.
 Qed.
 
 Lemma wf_run_app a : forall b s, wf_run s a = true -> wf_run (run s a) b = true -> wf_run s (a ++ b) = true.
@@ -419,11 +638,11 @@ Qed.
 
 (* from every state reachable under the hypotheses, a bounded number of internal steps leads
    to quiescence: nobody waits forever, later commands are not blocked *)
-Lemma eventually_quiescent_aux n : forall s, Inv s -> (measure s <= n)%nat ->
+Lemma eventually_quiescent_aux n : forall s, Inv s -> h_lost s = false -> (measure s <= n)%nat ->
   exists ls, forallb internal ls = true /\ contract_ok ls = true /\
              quiescent (run s ls) = true /\ (length ls <= n)%nat.
 Proof.
-  induction n as [|n IH]; intros s I M.
+  induction n as [|n IH]; intros s I L M.
   - destruct (quiescent s) eqn:Q.
     + exists []. cbn. auto.
     + destruct (progress s I Q) as [l [Hi [Hl Hs]]].
@@ -434,17 +653,20 @@ Proof.
     + destruct (progress s I Q) as [l [Hi [Hl Hs]]].
       destruct (step_opt s l) as [[s' o]|] eqn:E; [|congruence].
       pose proof (measure_decreases _ _ _ _ Hi E) as D.
-      assert (Inv s') as I'.
-      { rewrite <- (step_some _ _ _ _ E). apply step_inv; [assumption | assumption | apply internal_cancel_ok; exact Hi]. }
-      destruct (IH s' I' ltac:(lia)) as [ls [H1 [H2 [H3 H4]]]].
+      assert (Inv s' /\ h_lost s' = false) as [I' L'].
+      { rewrite <- (step_some _ _ _ _ E). split.
+        - apply step_inv; [assumption | assumption | apply internal_not_lose; exact Hi | assumption
+                           | apply internal_cancel_ok; exact Hi].
+        - rewrite (step_lost s l (internal_not_lose l Hi)). exact L. }
+      destruct (IH s' I' L' ltac:(lia)) as [ls [H1 [H2 [H3 H4]]]].
       exists (l :: ls). cbn. unfold contract_ok in H2. rewrite Hi, Hl, H1, H2. cbn.
       rewrite (step_some _ _ _ _ E). repeat split; auto. lia.
 Qed.
 
-Lemma eventually_quiescent s : Inv s ->
+Lemma eventually_quiescent s : Inv s -> h_lost s = false ->
   exists ls, forallb internal ls = true /\ contract_ok ls = true /\
              quiescent (run s ls) = true /\ (length ls <= measure s)%nat.
-Proof. intros I. apply (eventually_quiescent_aux (measure s) s I). lia. Qed.
+Proof. intros I L. apply (eventually_quiescent_aux (measure s) s I L). lia. Qed.
 
 (* accepted traces are runs *)
 Lemma accept_run ls : forall s s' o, accept s ls = Some (s', o) -> run s ls = s'.
@@ -456,39 +678,169 @@ Proof.
     intros H. inversion H; subst. rewrite (step_some _ _ _ _ E). apply (IH _ _ _ A).
 Qed.
 
+(* ------------------------------------------------------------------ consequences, before or after a loss *)
+Lemma inv2_outstanding s : Inv2 s -> outstanding s <= 1.
+Proof. intros [[_ I]|I]; [apply inv_outstanding; exact I | apply I]. Qed.
+
+Lemma inv2_reply_matches s : Inv2 s -> forall x r, In x (h_callers s) -> c_phase x = Done r -> r = c_op x.
+Proof.
+  intros [[_ I]|I]; [apply inv_reply_matches; exact I|].
+  intros x r Hx Hp. destruct (l_callers s I x Hx) as [_ H]. rewrite Hp in H. exact H.
+Qed.
+
+Lemma inv2_no_failure s : Inv2 s -> h_err s = false /\ forall x, In x (h_callers s) -> c_phase x <> Failed.
+Proof.
+  intros [[_ I]|I]; [apply inv_no_failure; exact I|]. split; [apply I|].
+  intros x Hx Hp. destruct (l_callers s I x Hx) as [_ H]. rewrite Hp in H. exact H.
+Qed.
+
+(* after a loss: when none of the host's own steps is enabled, every caller has its outcome *)
+Lemma linv_quiescent_answered s : LInv s -> quiescent_lost s = true -> all_answered s = true.
+Proof.
+  intros I Q. pose proof (l_pend s I) as P. unfold lost_pending_ok in P. unfold quiescent_lost in Q.
+  unfold all_answered. destruct (h_pending s) as [[c op]|] eqn:Pe.
+  - destruct P as [_ [_ [o [n [Hr _]]]]]. rewrite Hr in Q. discriminate.
+  - destruct P as [Hs Hr]. rewrite Hs in Q. cbn in Q. apply negb_true_iff in Q.
+    apply forallb_forall. intros x Hx. destruct (l_callers s I x Hx) as [_ H]. unfold is_done_own.
+    destruct (c_phase x) eqn:Ph; try reflexivity.
+    + exfalso. assert (existsb is_wait_sem (h_callers s) = true) as E; [|congruence].
+      apply existsb_exists. exists x. split; [exact Hx|]. unfold is_wait_sem. now rewrite Ph.
+    + congruence.
+    + subst. apply Z.eqb_refl.
+    + contradiction.
+Qed.
+
+Lemma quiescent_is_quiescent_lost s : quiescent s = true -> quiescent_lost s = true.
+Proof.
+  unfold quiescent, quiescent_lost. destruct (h_to s); [|discriminate]. destruct (h_from s); [|discriminate]. auto.
+Qed.
+
+Lemma inv2_quiescent_answered s : Inv2 s -> quiescent s = true -> all_answered s = true.
+Proof.
+  intros [[_ I]|I] Q; [apply inv_quiescent_answered; assumption|].
+  apply linv_quiescent_answered; [exact I | apply quiescent_is_quiescent_lost; exact Q].
+Qed.
+
+(* after a loss a caller that gets the semaphore fails at once, gives it back and sends nothing *)
+Lemma lost_acquire_fails s c s' o : h_lost s = true -> step_opt s (Acquire c) = Some (s', o) ->
+  o = [LostFailed c] /\ h_to s' = h_to s /\ h_sem s' = h_sem s /\ h_pending s' = h_pending s.
+Proof.
+  intros L E. cbn [step_opt] in E. destruct (Z.leb (h_sem s) 0); [discriminate|].
+  destruct (find_waiting c (h_callers s)); [|discriminate]. rewrite L in E. inversion E; subst. cbn. auto.
+Qed.
+
+(* ... hence no step after a loss puts a command on the wire *)
+Lemma lost_nothing_sent s l s' o : h_lost s = true -> lost_ok s l = true -> step_opt s l = Some (s', o) ->
+  (forall c op, ~ In (Sent c op) o) /\ (length (h_to s') <= length (h_to s))%nat.
+Proof.
+  intros L Hlo E. unfold lost_ok in Hlo. rewrite L in Hlo.
+  destruct l as [c op|c|cc n| |cc op n| |c|c|]; try discriminate.
+  - cbn [step_opt] in E. destruct (known c (h_callers s)); inversion E; subst; cbn. split; [tauto | lia].
+  - destruct (lost_acquire_fails s c s' o L E) as [-> [-> _]]. split; [|lia]. intros ? ? [H|[]]. discriminate.
+  - cbn [step_opt] in E. destruct (h_pending s) as [[c' op']|]; [|discriminate].
+    destruct (h_resp s) as [[op n]|]; [|discriminate]. destruct (c' =? c); [|discriminate].
+    destruct (op =? exc_code); inversion E; subst; cbn.
+    + split; [|lia]. intros ? ? [H|[]]. discriminate.
+    + unfold release_if. cbn. destruct (_ && _); cbn; (split; [|lia]); intros ? ? [H|[]]; discriminate.
+  - cbn [step_opt] in E. destruct (h_pending s) as [[c' op']|].
+    + destruct (c' =? c); [inversion E; subst; cbn; split; [|lia]; intros ? ? [H|[]]; discriminate|].
+      destruct (find_waiting c (h_callers s)); inversion E; subst; cbn. split; [|lia]. intros ? ? [H|[]]; discriminate.
+    + destruct (find_waiting c (h_callers s)); inversion E; subst; cbn. split; [|lia]. intros ? ? [H|[]]; discriminate.
+  - cbn [step_opt] in E. inversion E; subst; cbn. split; [tauto | lia].
+Qed.
+
+(* after a loss the host's own steps (Acquire, Resume) are enabled until every caller has its
+   outcome, and each of them decreases the measure: nobody waits forever *)
+Lemma progress_lost s : LInv s -> quiescent_lost s = false ->
+  exists l, (exists c, l = Acquire c \/ l = Resume c) /\ step_opt s l <> None.
+Proof.
+  intros I Q. pose proof (l_pend s I) as P. unfold lost_pending_ok in P. unfold quiescent_lost in Q.
+  destruct (h_pending s) as [[c op]|] eqn:Pe.
+  - destruct P as [_ [_ [o [n [Hr _]]]]]. exists (Resume c). split; [eauto|].
+    cbn. rewrite Pe, Hr, Z.eqb_refl. destruct (o =? exc_code); discriminate.
+  - destruct P as [Hs Hr]. rewrite Hs in Q. cbn in Q. apply negb_false_iff in Q.
+    destruct (existsb_find_waiting _ Q) as [x Hx]. exists (Acquire (c_id x)). split; [eauto|].
+    cbn. rewrite Hs, Hx, (l_lost s I). cbn. discriminate.
+Qed.
+
+Lemma lost_eventually_aux n : forall s, LInv s -> (measure s <= n)%nat ->
+  exists ls, forallb internal ls = true /\ wf_run s ls = true /\
+             all_answered (run s ls) = true /\ (length ls <= n)%nat.
+Proof.
+  induction n as [|n IH]; intros s I M.
+  - destruct (quiescent_lost s) eqn:Q.
+    + exists []. cbn. repeat split; auto. apply linv_quiescent_answered; assumption.
+    + destruct (progress_lost s I Q) as [l [[c Hl] Hs]].
+      destruct (step_opt s l) as [[s' o]|] eqn:E; [|congruence].
+      assert (internal l = true) as Hi by (destruct Hl as [->| ->]; reflexivity).
+      pose proof (measure_decreases _ _ _ _ Hi E). lia.
+  - destruct (quiescent_lost s) eqn:Q.
+    + exists []. cbn. repeat split; auto; [apply linv_quiescent_answered; assumption | lia].
+    + destruct (progress_lost s I Q) as [l [[c Hl] Hs]].
+      destruct (step_opt s l) as [[s' o]|] eqn:E; [|congruence].
+      assert (internal l = true) as Hi by (destruct Hl as [->| ->]; reflexivity).
+      assert (label_ok l = true) as Hlo by (destruct Hl as [->| ->]; reflexivity).
+      assert (lost_ok s l = true) as Hls by (unfold lost_ok; rewrite (l_lost s I); destruct Hl as [->| ->]; reflexivity).
+      pose proof (measure_decreases _ _ _ _ Hi E) as D.
+      assert (LInv s') as I'.
+      { rewrite <- (step_some _ _ _ _ E). apply step_linv; [assumption | assumption | apply internal_cancel_ok; exact Hi | assumption]. }
+      destruct (IH s' I' ltac:(lia)) as [ls [H1 [H2 [H3 H4]]]].
+      exists (l :: ls). cbn [forallb wf_run run length]. rewrite Hi, Hlo, (internal_cancel_ok s l Hi), Hls, H1. cbn.
+      rewrite (step_some _ _ _ _ E). repeat split; auto. lia.
+Qed.
+
 (* ------------------------------------------------------------------ the statements
-   hypotheses [wf_run h_init ls]: the controller contract on every label, and no cancellation
-   of the caller that owns a still unanswered command (cancelling queued callers, the owner
-   after its response arrived, at any point of any schedule, is allowed) *)
+   hypotheses [wf_run h_init ls]: the controller contract on every label, no cancellation of the
+   caller that owns a still unanswered command (cancelling queued callers, the owner after its
+   response arrived, at any point of any schedule, is allowed), nothing crosses the transport
+   after it was lost.  Histories with and without a transport loss. *)
 Theorem at_most_one_outstanding ls : wf_run h_init ls = true -> outstanding (run h_init ls) <= 1.
-Proof. intros C. apply inv_outstanding. apply run_inv; [exact C | exact inv_init]. Qed.
+Proof. intros C. apply inv2_outstanding. apply run_inv; [exact C | exact inv2_init]. Qed.
 
 Theorem reply_matches_caller ls : wf_run h_init ls = true ->
   forall x r, In x (h_callers (run h_init ls)) -> c_phase x = Done r -> r = c_op x.
-Proof. intros C. apply inv_reply_matches. apply run_inv; [exact C | exact inv_init]. Qed.
+Proof. intros C. apply inv2_reply_matches. apply run_inv; [exact C | exact inv2_init]. Qed.
 
-(* every caller is answered with its own response, or was cancelled by its own task *)
+(* every caller is answered with its own response, was cancelled by its own task, or failed with
+   TransportLostError *)
 Theorem every_caller_answered ls : wf_run h_init ls = true ->
   quiescent (run h_init ls) = true -> all_answered (run h_init ls) = true.
-Proof. intros C. apply inv_quiescent_answered. apply run_inv; [exact C | exact inv_init]. Qed.
+Proof. intros C. apply inv2_quiescent_answered. apply run_inv; [exact C | exact inv2_init]. Qed.
 
 Theorem no_caller_waits_forever ls : wf_run h_init ls = true ->
-  exists ls', forallb internal ls' = true /\ contract_ok ls' = true /\
+  exists ls', forallb internal ls' = true /\ wf_run (run h_init ls) ls' = true /\
               all_answered (run h_init (ls ++ ls')) = true /\
               (length ls' <= measure (run h_init ls))%nat.
 Proof.
-  intros C. pose proof (run_inv ls h_init C inv_init) as I.
-  destruct (eventually_quiescent _ I) as [ls' [H1 [H2 [H3 H4]]]].
-  exists ls'. repeat split; auto.
+  intros C. pose proof (run_inv ls h_init C inv2_init) as I2.
   assert (forall a b s, run s (a ++ b) = run (run s a) b) as run_app.
   { induction a as [|x a IHa]; intros b s; cbn; [reflexivity | apply IHa]. }
-  rewrite run_app. apply inv_quiescent_answered; [|exact H3].
-  apply run_inv; [apply wf_run_internal; assumption | exact I].
+  destruct I2 as [[L I]|I].
+  - destruct (eventually_quiescent _ I L) as [ls' [H1 [H2 [H3 H4]]]].
+    exists ls'. pose proof (wf_run_internal ls' _ L H1 H2) as W. repeat split; auto.
+    rewrite run_app. apply inv2_quiescent_answered; [|exact H3].
+    apply run_inv; [exact W | left; auto].
+  - destruct (lost_eventually_aux (measure (run h_init ls)) _ I (le_n _)) as [ls' [H1 [H2 [H3 H4]]]].
+    exists ls'. rewrite run_app. auto.
 Qed.
 
 Theorem host_never_fails ls : wf_run h_init ls = true ->
   h_err (run h_init ls) = false /\ forall x, In x (h_callers (run h_init ls)) -> c_phase x <> Failed.
-Proof. intros C. apply inv_no_failure. apply run_inv; [exact C | exact inv_init]. Qed.
+Proof. intros C. apply inv2_no_failure. apply run_inv; [exact C | exact inv2_init]. Qed.
+
+(* after a loss no command is put on the wire any more, whatever the callers do *)
+Theorem nothing_sent_after_loss ls : forall s, h_lost s = true -> wf_run s ls = true ->
+  (length (h_to (run s ls)) <= length (h_to s))%nat.
+Proof.
+  induction ls as [|l ls IH]; intros s L W; cbn [run]; [lia|].
+  cbn [wf_run] in W. apply andb_true_iff in W. destruct W as [W123 W4].
+  apply andb_true_iff in W123. destruct W123 as [W12 W3].
+  assert (h_lost (step s l) = true) as L'.
+  { destruct (label_eq_lose_dec l) as [->|N]; [unfold step; cbn; reflexivity | rewrite (step_lost s l N); exact L]. }
+  specialize (IH (step s l) L' W4).
+  unfold step in *. destruct (step_opt s l) as [[s' o]|] eqn:E; [|exact IH].
+  destruct (lost_nothing_sent s l s' o L W3 E) as [_ Hlen]. lia.
+Qed.
 
 (* a cancelled caller changes nothing for the others: cancelling a queued caller leaves the
    semaphore, the pending command and both FIFOs as they are *)
@@ -563,4 +915,15 @@ Lemma cancel_examples :
   wf_run h_init ls = true /\
   map phase_code (h_callers (run h_init ls)) = [(1, 4, 0); (2, 4, 0); (3, 2, 3092)] /\
   all_answered (run h_init ls) = true.
+Proof. vm_compute. repeat split. Qed.
+
+(* the transport is lost while a command is outstanding and two callers are queued: the owner
+   fails with the exception, the queued callers fail as soon as they get the semaphore, nothing
+   more is sent, the semaphore ends free *)
+Lemma transport_lost_example :
+  let ls := [Call 1 4105; Call 2 8216; Call 3 3092; Acquire 1; Lose; Resume 1; Acquire 2; Call 4 1030; Acquire 3;
+             Acquire 4] in
+  wf_run h_init ls = true /\
+  map phase_code (h_callers (run h_init ls)) = [(1, 5, 0); (2, 5, 0); (3, 5, 0); (4, 5, 0)] /\
+  all_answered (run h_init ls) = true /\ h_sem (run h_init ls) = 1 /\ h_to (run h_init ls) = [4105].
 Proof. vm_compute. repeat split. Qed.
